@@ -372,7 +372,7 @@ fn g_ops(rng: &mut Rng, len: usize, nglobals: usize, forget: bool) -> Vec<Op> {
         let o = match rng.below(100) {
             0..=10 => { s.next_sink += 1; if !s.att[g] { s.att[g] = true; s.handles.push((g, true)); } Op::Attach(g, c, sink) }
             11..=17 => { let h = pick_idx(rng, s.handles.len()); if let Some(x) = s.handles.get_mut(h) { if x.1 { x.1 = false; s.att[x.0] = false; } } Op::DropHandle(c, h) }
-            18..=20 if forget => { let h = pick_idx(rng, s.handles.len()); if let Some(x) = s.handles.get_mut(h) { x.1 = false; } Op::ForgetHandle(c, h) }
+            18..=26 if forget => { let h = pick_idx(rng, s.handles.len()); if let Some(x) = s.handles.get_mut(h) { x.1 = false; } Op::ForgetHandle(c, h) }
             18..=29 => { s.next_sink += 1; s.tlg.push(true); Op::SetTL(g, c, sink) }
             30..=36 => Op::DropTL(pick_idx(rng, s.tlg.len())),
             37..=43 => { s.next_sink += 1; s.rtg.push(true); Op::SetRT(g, c, rng.below(NRUNTIMES as u64) as usize, sink) }
@@ -410,7 +410,118 @@ fn emit(out: &mut Out, ops: &[Op], kind: &str) {
     out.case(&case, &imp, nt);
 }
 
+
+// ------------------------------------------------------------------------------------------- appends racing a detach (real threads)
+global_entry_sink! { RaceG }
+/// One run: `threads` appender threads each try_append `per` entries while another thread drops the attach handle.
+/// Appender 0 optionally has a thread-local test sink (its entries must all go there, untouched by the detach).
+/// Returns (outcomes per entry in program order per thread: (thread, entry, ok), the recorders' log).
+fn race_once(threads: usize, per: usize, spin: u64, tl_on_first: bool) -> (Vec<(usize, u64, bool)>, Vec<Ev>) {
+    let log: Log = Arc::new(Mutex::new(vec![]));
+    let handle = RaceG::attach((RecSink { id: 1, log: log.clone() }, JoinProbe { id: 1, log: log.clone() }));
+    let barrier = std::sync::Barrier::new(threads + 1);
+    let mut outcomes = vec![];
+    std::thread::scope(|sc| {
+        let mut joins = vec![];
+        for t in 0..threads {
+            let (barrier, log) = (&barrier, log.clone());
+            joins.push(sc.spawn(move || {
+                let _guard = if t == 0 && tl_on_first { Some(RaceG::set_test_sink(BoxEntrySink::new(RecSink { id: 2, log: log.clone() }))) } else { None };
+                barrier.wait();
+                let mut mine = vec![];
+                for k in 0..per {
+                    let e = ((t as u64) << 32) | k as u64;
+                    match RaceG::try_append(ent(e)) { Ok(()) => mine.push((t, e, true)), Err(back) => mine.push((t, read_id(&back), false)) }
+                }
+                mine
+            }));
+        }
+        barrier.wait();
+        for _ in 0..spin { std::hint::spin_loop(); }
+        drop(handle);
+        for j in joins { outcomes.extend(j.join().unwrap()); }
+    });
+    let seen = log.lock().unwrap().clone();
+    (outcomes, seen)
+}
+/// harness-side reading of the property for one run; None = fine
+fn race_verdict(threads: usize, per: usize, tl_on_first: bool, outcomes: &[(usize, u64, bool)], log: &[Ev]) -> Option<String> {
+    let joined: Vec<usize> = log.iter().enumerate().filter(|(_, e)| matches!(e, Ev::Joined(1))).map(|(i, _)| i).collect();
+    if joined.len() != 1 { return Some(format!("the attached sink was joined {} times", joined.len())); }
+    if log.iter().skip(joined[0] + 1).any(|e| matches!(e, Ev::Recv(1, _))) { return Some("an entry was delivered to the detached sink after its join".into()); }
+    if outcomes.len() != threads * per { return Some("an appender lost an operation".into()); }
+    for t in 0..threads {
+        let mine: Vec<&(usize, u64, bool)> = outcomes.iter().filter(|o| o.0 == t).collect();
+        let want_sink = if t == 0 && tl_on_first { 2 } else { 1 };
+        let mut failed = false;
+        for (k, o) in mine.iter().enumerate() {
+            let e = ((t as u64) << 32) | k as u64;
+            if o.1 != e { return Some(format!("entry {e:x} came back as {:x}", o.1)); }
+            let hits = log.iter().filter(|x| matches!(x, Ev::Recv(_, y) if *y == e)).count();
+            let right = log.iter().filter(|x| matches!(x, Ev::Recv(d, y) if *y == e && *d == want_sink)).count();
+            if o.2 && (hits != 1 || right != 1) { return Some(format!("entry {e:x} reported Ok but was delivered {hits} times ({right} to the right sink)")); }
+            if !o.2 && hits != 0 { return Some(format!("entry {e:x} was handed back and also delivered")); }
+            if t == 0 && tl_on_first && !o.2 { return Some("an entry of the thread with a test sink was handed back".into()); }
+            if failed && o.2 { return Some(format!("thread {t}: an append succeeded after an earlier one was handed back")); }
+            if !o.2 { failed = true; }
+        }
+        // program order within the sink's log
+        let pos: Vec<usize> = mine.iter().filter(|o| o.2).map(|o| log.iter().position(|x| matches!(x, Ev::Recv(_, y) if *y == o.1)).unwrap()).collect();
+        if pos.windows(2).any(|w| w[0] > w[1]) { return Some(format!("thread {t}: entries delivered out of program order")); }
+    }
+    None
+}
+/// Code fact the model relies on: the detached (sink, handle) pair is dropped while the write lock is still held,
+/// so an append that starts during the join waits and then finds no attached sink.
+fn join_happens_under_the_lock() -> Result<(bool, bool), String> {
+    global_entry_sink! { JoinG }
+    struct Probe { tx: Mutex<Option<mpsc::Sender<(bool, bool)>>> }
+    impl Drop for Probe {
+        fn drop(&mut self) {
+            let (done_tx, done_rx) = mpsc::channel();
+            std::thread::spawn(move || { let r = JoinG::try_append(ent(7)); let _ = done_tx.send(r.is_err()); });
+            // while this drop runs, the appender must not get through
+            let blocked = done_rx.recv_timeout(std::time::Duration::from_millis(150)).is_err();
+            let tx = self.tx.lock().unwrap().take().unwrap();
+            std::thread::spawn(move || { let handed_back = done_rx.recv_timeout(std::time::Duration::from_secs(5)).unwrap_or(false); let _ = tx.send((blocked, handed_back)); });
+        }
+    }
+    let log: Log = Arc::new(Mutex::new(vec![]));
+    let (tx, rx) = mpsc::channel();
+    let h = JoinG::attach((RecSink { id: 1, log }, Probe { tx: Mutex::new(Some(tx)) }));
+    drop(h);
+    rx.recv_timeout(std::time::Duration::from_secs(10)).map_err(|e| e.to_string())
+}
+fn run_race(ctx: &Ctx) {
+    let mut out = Out::new(ctx, "-race");
+    let mut rng = Rng::new(ctx.seed ^ 0x17);
+    let runs = if ctx.replay.is_some() { 50 } else if ctx.tier_thorough { 4000 } else { 400 };
+    for _ in 0..runs {
+        let threads = rng.range(1, 4) as usize;
+        let per = *rng.pick(&[1usize, 1, 2, 5, 20, 60]);
+        let spin = *rng.pick(&[0u64, 10, 100, 1000, 5000, 20000]);
+        let tl = rng.chance(1, 4);
+        let (outcomes, log) = race_once(threads, per, spin, tl);
+        let case = Sx::L(vec![sx::n(threads as u64), sx::n(per as u64), sx::n(tl as u64)]);
+        if let Some(why) = race_verdict(threads, per, tl, &outcomes, &log) { out.fail(format!("append racing detach: {why}"), &case); }
+        let delivered = outcomes.iter().filter(|o| o.2).count();
+        out.count(if delivered == 0 { "race_all_handed_back" } else if delivered == outcomes.len() { "race_all_delivered" } else { "race_mixed_outcomes" });
+        let imp = Sx::L(vec![
+            Sx::L(outcomes.iter().map(|o| Sx::L(vec![sx::n(o.0 as u64), sx::n(o.1), sx::boolean(o.2)])).collect()),
+            Sx::L(log.iter().map(|e| match e { Ev::Recv(s, x) => sx::tag(0, vec![sx::n(*s), sx::n(*x)]), Ev::Joined(s) => sx::tag(1, vec![sx::n(*s)]) }).collect()),
+        ]);
+        out.case(&case, &imp, delivered != 0 && delivered != outcomes.len());
+    }
+    match join_happens_under_the_lock() {
+        Ok((true, true)) => out.count("join_under_write_lock_confirmed"),
+        Ok((blocked, back)) => out.fail(format!("the detached sink is not joined under the write lock (append blocked: {blocked}, handed back: {back})"), &Sx::L(vec![])),
+        Err(e) => out.fail(format!("join probe did not report: {e}"), &Sx::L(vec![])),
+    }
+    out.finish("appender threads calling try_append in a loop while another thread drops the attach handle (real threads, the RwLock is the serialisation point); non-trivial = some entries delivered and some handed back");
+}
+
 pub fn run(ctx: &Ctx) {
+    run_race(ctx);
     if std::env::var("C17_LOUD").is_err() { crate::common::quiet_panics(); }
     let mut out = Out::new(ctx, "");
     if let Some(p) = &ctx.replay {
